@@ -139,7 +139,7 @@ func checkCmd(args []string) int {
 		cr.CheckClients(entries)
 		return cr.Finish("proof", checkerCmd, commonTrusted, "one obligation per (Client.<Op> return site, clause): response kind by status code (symbolic status), undocumented codes, default code, raw bodies left open; the status-to-type binding is the one proved on the server side (C02 contracts)")
 	case "C06", "C07", "C08":
-		entries := vc.FixtureCorpus(*repo, "json", "schema_all_of", "nullable", "response_additional_props", "response_additional_props_with_schema", "response_schema_time", "schema_array", "schema_one_of")
+		entries := vc.FixtureCorpus(*repo, "json", "schema_all_of", "nullable", "response_additional_props", "response_additional_props_with_schema", "response_schema_time", "schema_array", "schema_one_of", "request_body")
 		entries = append(entries, vc.JSONCorpus(*verif)...)
 		if *tier != "quick" {
 			entries = vc.FixtureCorpus(*repo)
